@@ -3,3 +3,5 @@ import HpoProofs.TermId
 import HpoProofs.Arena
 import HpoProofs.Closure
 import HpoProofs.BuilderInv
+import HpoProofs.Link
+import HpoProofs.Annotate
